@@ -282,6 +282,8 @@ func c20Pem(name string) string {
 		return world.CA1.PEM
 	case "two":
 		return world.CA2.PEM
+	case "one+two":
+		return world.CA1.PEM + world.CA2.PEM // a bundle, as during a graceful rotation (cat old.pem new.pem)
 	case "empty":
 		return "" // a file that exists and has no content yet (a secret that is populated later)
 	}
@@ -301,7 +303,7 @@ func c20Model(run *ev.Run, settings []string) seqx.Model {
 	for _, st := range settings {
 		evs = append(evs, seqx.Event{Kind: "load", Arg: st})
 	}
-	evs = append(evs, seqx.Event{Kind: "rewrite", Arg: "one"}, seqx.Event{Kind: "rewrite", Arg: "two"}, seqx.Event{Kind: "rewrite", Arg: "garbage"}, seqx.Event{Kind: "rewrite", Arg: "empty"}, seqx.Event{Kind: "tick"},
+	evs = append(evs, seqx.Event{Kind: "rewrite", Arg: "one"}, seqx.Event{Kind: "rewrite", Arg: "two"}, seqx.Event{Kind: "rewrite", Arg: "garbage"}, seqx.Event{Kind: "rewrite", Arg: "empty"}, seqx.Event{Kind: "rewrite", Arg: "one+two"}, seqx.Event{Kind: "tick"},
 		// the file is unreadable (removed) for three refresh periods, then back with the content it had, one more period
 		seqx.Event{Kind: "outage"})
 	return seqx.Model{
@@ -425,9 +427,9 @@ func c20Model(run *ev.Run, settings []string) seqx.Model {
 			}
 			sort.Strings(parts)
 			h := ""
-			for _, k := range []string{"one", "two", "garbage", "empty"} {
+			for _, k := range []string{"one", "two", "garbage", "empty", "one+two"} {
 				if s.history[k] {
-					h += k[:1]
+					h += k[:1] + k[len(k)-1:]
 				}
 			}
 			var tr []string
@@ -564,11 +566,11 @@ func c20Run(run *ev.Run) {
 			}
 		}
 	}
-	settings := []string{"A", "B", "C"}
+	settings := []string{"B", "C"} // (quick: one watched setting, one unwatched; thorough: all four)
 	depth := 5
 	if run.Tier == "thorough" {
 		settings = []string{"A", "B", "C", "D"}
-		depth = 7
+		depth = 6
 	}
 	m := c20Model(run, settings)
 	m.MaxDepth = depth
